@@ -27,10 +27,8 @@ TRUSTED_BASE = [
     "final working tableau generates the group of |0..0>'), C02.solver_complete / solver_complete_stabilizer (completeness: for every graph on >= 1 vertex without "
     "isolated vertex / every stabilizer target without product qubit the model returns and hfinal holds), C02.solve_correct (both together) and C02.validator_sound, "
     "on top of the C07/C01 tableau semantics and the C03 echelon/height theorems",
-    "C02.solve_sound_unconditional / solve_returns_correct remove hfinal (whenever the model returns, its circuit is correct) under the C11 theorem "
-    "InverseCircuitEndsInZero (what inverse_circuit returns is the zero tableau)",
-    "the completeness theorems carry ONE explicit hypothesis, InverseCircuitComplete (inverse_circuit reaches |0..0> on every valid stabilizer tableau; property C11, "
-    "proved on its own branch and discharged when the branches are merged)",
+    "C02.solve_sound_unconditional / solve_returns_correct remove hfinal (whenever the model returns, its circuit is correct); no theorem of the property file "
+    "carries a hypothesis on inverse_circuit any more: C11's inverseCircuit_complete / inverseCircuit_isZero are imported",
     "correspondence: the solver model is compared exactly (per-wire operation sequences) with the implementation on every generated target; "
     "hfinal's executable form (driver flag zero=1) is evaluated on every input; the two tableau-rewriting helpers (_time_reversed_measurement, "
     "_add_photon_absorption) and inverse_circuit are additionally compared with their models on synthetic inputs; targets reaching rarely taken "
